@@ -1,5 +1,6 @@
 import OdakModel.Exec.Proto
 import OdakModel.Propagate
+import OdakModel.Beam
 namespace Odak.Exec
 open Odak
 
@@ -58,4 +59,13 @@ def opsWave : List (String × Handler) := [
     showGrid (custom (readGrid n m xs 2) (readGrid n m xs (2 + 2 * n * m)) (readGrid n m xs (2 + 4 * n * m))))
 ]
 
+end Odak.Exec
+
+namespace Odak.Exec
+open Odak
+def showC' (z : Cx Float) : String := outF [z.re, z.im]
+def opsBeam : List (String × Handler) := [
+  -- gauss w0 lam z r2
+  ("gauss", fun a => showC' (gaussBeam (fl (a.getD 0 0)) (fl (a.getD 1 0)) (fl (a.getD 2 0)) (fl (a.getD 3 0))))
+]
 end Odak.Exec
